@@ -156,7 +156,7 @@ class BuildCheckpointState(BuildCheckpointStateModel):
             p.prove(rs.e == BITGEN(g["rng"].e) if isinstance(rs, Sym) else z3.BoolVal(False), f"{q}:C11:C20:payload carries the generator state")
         else:
             rs = d.get("rng_state", NONE)
-            p.prove(z3.BoolVal(not isinstance(rs, NoneV)), f"{q}:C11:C20:payload carries the generator state [generator without bit_generator]")
+            p.prove(z3.BoolVal(not isinstance(rs, NoneV)), f"{q}:C11:payload carries the generator state [generator without bit_generator]")
         ms = d.get("min_step", NONE)
         p.prove(to_real(ms) == to_real(g["s"].f["_min_step"]) if isinstance(ms, Z) else z3.BoolVal(False), f"{q}:C11:payload carries the adaptive minimum step")
         p.prove(z3.BoolVal(isinstance(d.get("sampler"), Str) and d["sampler"].v == "SMCSampler"), f"{q}:C11:C14:payload names the sampler class that wrote it")
